@@ -20,8 +20,10 @@ type ParserData struct {
 		continueIndex int
 		breakIndex    int
 	}
-	loopLayer int // 当前loop层数
-	codeStack []struct {
+	loopBlockDepth []int // 每层loop开始时的blockDepth，用于break/continue前关闭循环体内已打开的语句块
+	blockDepth     int   // 当前已生成 block.push 而尚未生成 block.pop 的层数
+	loopLayer      int   // 当前loop层数
+	codeStack      []struct {
 		code    []ByteCode
 		index   int
 		textPos int
@@ -46,6 +48,7 @@ func (e *ParserData) LoopBegin() {
 		continueIndex int
 		breakIndex    int
 	}{continueIndex: len(e.continueStack), breakIndex: len(e.breakStack)})
+	e.loopBlockDepth = append(e.loopBlockDepth, e.blockDepth)
 }
 
 func (e *ParserData) LoopEnd() {
@@ -54,6 +57,18 @@ func (e *ParserData) LoopEnd() {
 	e.continueStack = e.continueStack[:info.continueIndex]
 	e.breakStack = e.breakStack[:info.breakIndex]
 	e.loopInfo = e.loopInfo[:len(e.loopInfo)-1]
+	e.loopBlockDepth = e.loopBlockDepth[:len(e.loopBlockDepth)-1]
+}
+
+// leaveBlocksInLoop 在 break/continue 跳转之前，关闭当前循环体内已经打开的语句块(如 if)，
+// 否则每次跳出都会泄漏一层 block，累计超过上限后报错
+func (e *ParserData) leaveBlocksInLoop() {
+	if len(e.loopBlockDepth) == 0 {
+		return
+	}
+	for i := e.loopBlockDepth[len(e.loopBlockDepth)-1]; i < e.blockDepth; i++ {
+		e.WriteCode(typeBlockPop, nil)
+	}
 }
 
 func (e *ParserData) checkStackOverflow() bool {
@@ -92,6 +107,12 @@ func (e *ParserData) AddOp(operator CodeType) {
 	var val interface{} = nil
 	if operator == typeJne || operator == typeJmp {
 		val = IntType(0)
+	}
+	switch operator {
+	case typeBlockPush:
+		e.blockDepth++
+	case typeBlockPop:
+		e.blockDepth--
 	}
 	e.WriteCode(operator, val)
 }
@@ -184,6 +205,7 @@ func (p *ParserData) ContinuePush() error {
 		if p.continueStack == nil {
 			p.continueStack = []IntType{}
 		}
+		p.leaveBlocksInLoop()
 		p.AddOp(typeJmp)
 		p.continueStack = append(p.continueStack, IntType(p.codeIndex)-1)
 	} else {
@@ -218,6 +240,7 @@ func (p *ParserData) BreakPush() error {
 		if p.breakStack == nil {
 			p.breakStack = []IntType{}
 		}
+		p.leaveBlocksInLoop()
 		p.AddOp(typeJmp)
 		p.breakStack = append(p.breakStack, IntType(p.codeIndex)-1)
 		return nil
